@@ -521,3 +521,28 @@ def run_asgi_pair(prefix, app, scopes, messages):
         for r_ in results:
             r_.stuck = x.obs["stuck"]
     return Execution(x.choices, x.points, results)
+
+
+def wsgi_thread_pairs(r, label, app, requests, pairs, files, bound=1, sig_prefix="threads"):
+    """Two WSGI requests on one application object in two controlled threads, a scheduling point on every source line of `files`;
+    all schedules with <= bound preemptions. Each request must get exactly what it gets alone. requests: {name: AReq}."""
+    from . import vthreads as VT
+    from .explore import dfs
+
+    def obs(res):
+        return (res.status, res.header_multiset(), res.body, type(res.exc).__name__ if res.exc else None)
+
+    solo = {k: obs(run_wsgi(app, to_environ(q))) for k, q in requests.items()}
+    for a, b in pairs:
+        jobs = [lambda a=a: obs(run_wsgi(app, to_environ(requests[a]))), lambda b=b: obs(run_wsgi(app, to_environ(requests[b])))]
+
+        def on_exec(x, a=a, b=b):
+            r.count("evaluations")
+            r.count("traces")
+            r.count("transitions", len(x.choices))
+            res = x.obs["results"]
+            if x.obs["stuck"] or res != [solo[a], solo[b]]:
+                r.violation(f"{sig_prefix}:{label}", {"threads": label, "a": a, "b": b, "schedule": list(x.choices)},
+                            f"{label}: requests '{a}' and '{b}' in two threads on one app object, schedule {x.obs['trace'][-12:]}: got {res!r:.220}, alone {[solo[a], solo[b]]!r:.220}")
+        dfs(lambda prefix: VT.run_thread_pair(prefix, jobs, files), on_exec, bound=bound)
+        r.count("distinct_nontrivial")
